@@ -62,6 +62,7 @@ type fgen struct {
 	keys    map[string]bool // key texts used in this value (association keys are unique per value)
 	keyN    int
 	noMulti bool // no Map / Go map with two or more entries (self-containing values)
+	inSet   int  // > 0 below a Set: no typed collection there (the collator would compare its elements with those of an `any` collection member by member; the order of the Set then depends on element types the round trip does not keep: outside the one-type universe, as compatibleNodes for C07 / C08)
 	mode    int  // 0: canonical dynamic types and the seven collection kinds only; 1: also narrower widths, Go slices / maps, typed collections; 2: anything (non-finite floats, invalid runes, bare associations)
 	stats   *fstats
 }
@@ -492,7 +493,7 @@ func (g *fgen) genValue(depth int) *fnode {
 	if depth <= 0 || g.budget <= 0 || r.chance(2, 5) {
 		return g.genLeaf(g.leafKind())
 	}
-	if g.mode >= 1 && r.chance(1, 12) {
+	if g.mode >= 1 && g.inSet == 0 && r.chance(1, 12) {
 		return g.genTyped()
 	}
 	if g.mode >= 1 && r.chance(1, 40) {
@@ -522,8 +523,14 @@ func (g *fgen) genContainer(kind string, depth int) *fnode {
 			n.vals = append(n.vals, g.genValue(depth-1))
 		}
 	default:
+		if kind == "set" {
+			g.inSet++
+		}
 		for i := 0; i < size; i++ {
 			n.kids = append(n.kids, g.genValue(depth-1))
+		}
+		if kind == "set" {
+			g.inSet--
 		}
 	}
 	return n
@@ -578,7 +585,13 @@ func (g *fgen) genChain(levels int) *fnode {
 	n := &fnode{kind: kind}
 	g.budget--
 	g.stats.contKinds[kind]++
+	if kind == "set" {
+		g.inSet++
+	}
 	inner := g.genChain(levels - 1)
+	if kind == "set" {
+		g.inSet--
+	}
 	sibs := []int{0, 0, 1, 2}[r.intn(4)]
 	if g.noMulti && (kind == "map" || kind == "gomap") {
 		sibs = 0
